@@ -21,7 +21,7 @@ out = []
 out.append("### 9.6 Validation of the machinery: seeded changes, reverted fixes, determinism\n")
 out.append("`./selftest seeded` applies every change under `/verif/seeded/<id>/<variant>/patch.diff` to a scratch worktree of")
 out.append("`/repo` (never to `/repo` itself) and runs the quick tier of the checks with `VERIF_REPO=<worktree>`.")
-out.append(f"The {len(res)} changes were written in four rounds by independent sub-agents that saw only the text of one property (rounds 2 to 4")
+out.append(f"The {len(res)} changes were written in five rounds by independent sub-agents that saw only the text of one property (rounds 2 to 5")
 out.append("also one-paragraph summaries of the earlier changes to avoid) and a scratch worktree - nothing from `/verif`.")
 out.append("Each was confirmed by the builder before being kept: the patch applies, the repository's whole suite (51 tests + 6")
 out.append("doc-tests) passes with it, its demonstration fails with it and passes without it (`meta.json` records the commands).")
@@ -35,7 +35,14 @@ out.append("forged-proof synthesis, then a wider calibration family), C13/e (an 
 out.append("tampered one: a per-thread memo keyed on too little), C10/f (keys created on one thread and used on another); the")
 out.append("C04/h (a larger candidate family for the near-collision histories: two clients whose randomness agree in 4 bytes); the")
 out.append("descriptions of further round-2..4 changes were used to add the sweeps and histories of section 9.5 before those")
-out.append("changes were run.")
+out.append("changes were run. Round 5 (variants i, j): the target checks as they stood caught 18 of the 36 on the first pass;")
+out.append("five runs of that pass were lost to a harness that did not compile because it was being edited meanwhile (exit 2,")
+out.append("a machinery error, never a verdict), and 13 were genuine misses: C02/i, C02/j, C03/i, C03/j, C06/j, C07/j, C08/j,")
+out.append("C09/i, C10/i, C11/j, C12/i, C13/i, C15/j, C16/i, C17/j, C18/i (some of these among the lost runs). The checks added")
+out.append("because of them are the 'fifth round' list of section 9.5 (object reuse, travelled keys, sparse keys, neighbour")
+out.append("classes, framing ambiguity, out-parameters, point padding, algebraic adversary, call histories, value equality,")
+out.append("layout-valid-but-never-dealt encodings, shortened chunks, tag-list shapes, JSON structure, mixed batches, refused")
+out.append("requests, near-colliding tags); each is a dimension, not the mutant's input.")
 out.append("")
 out.append("**Not caught: C04/g.** That change replaces an epoch longer than 64 bytes by a digest computed with a new private")
 out.append("label before it enters the derivation, so the epoch E and the 32-byte epoch digest(E) collide - and nothing else")
